@@ -454,6 +454,9 @@ class ExprMixin(object):
                     concrete = False
                 elif isinstance(v, PyStr):
                     docs.append(fld_doc(p[2], z3.StringVal(v.s))); concrete = False
+                elif isinstance(v, (ExcV, Obj, NoneV, Opt, Tup, TupTerm, SeqV, PyList)):
+                    # str() of an object inside a message: some text (messages are not part of any contract)
+                    docs.append(fld_doc(('s', '', None, None), fresh(StrS, 'strof'))); concrete = False
                 else:
                     raise Unsupported('format argument %r' % (v,))
         if concrete: return PyStr(''.join(pieces))
@@ -591,6 +594,8 @@ class ExprMixin(object):
 
     def getattr(self, recv, name, st, node=None):
         r = self.deref(recv, st)
+        if isinstance(r, ExcV) and name == 'args':
+            return [(Tup(list(r.args) if r.args else [Sc(fresh(StrS, 'excmsg'), 'str')]), st)]
         if isinstance(r, NTup):
             if name in r.cls.fields: return [(r.items[r.cls.fields.index(name)], st)]
             raise AttributeErrorSite(r.cls.name, name)
@@ -1843,7 +1848,8 @@ class CallMixin(object):
             for nm in c.modifies:
                 v = env[nm]; s_r.cells[v.id] = self.havoc_value(pre_state.cells[v.id], '%s@%s!exc' % (nm, fi.qualname))
             s_r.pc += c.on_raise(NS(self, s_r, frame=fr), ns_pre)
-            self._raises.append(Outcome('raise', s_r, ExcV('<any>', origin=fi.qualname)))
+            for cls_ in (c.raises_classes or ['<any>']):
+                self._raises.append(Outcome('raise', s_r.copy(), ExcV(cls_, origin=fi.qualname)))
             st.pc.append(z3.Not(rz))
         for cls_, cond in (getattr(c, 'may_raise', None) or (lambda v: []))(ns_pre):
             s_r = pre_state.copy(); s_r.frames.pop(); s_r.pc.append(cond)
@@ -2036,6 +2042,9 @@ class Executor(Exec, ExprMixin, StmtMixin, CallMixin):
                     ns = NS(self, o.state, frame=o.state.frames[0])
                     for i, g in enumerate(c.on_raise(ns, self.old_ns)):
                         self.obl('on-raise/%d' % i, o.state, g, carries='on_raise' in c.carries)
+                if c.raises_classes is not None:
+                    ok = o.value.cls in c.raises_classes or any(self.is_subclass(o.value.cls, b) for b in c.raises_classes)
+                    self.obl('raises-only/%s' % o.value.cls, o.state, z3.BoolVal(bool(ok)))
                 if c.raises_when is not None:
                     ns = NS(self, o.state, frame=o.state.frames[0])
                     for i, g in enumerate(c.raises_when(ns, self.old_ns, o.value)):
